@@ -17,7 +17,7 @@ RULE = ('the union of the C03-C12 workloads (permitted API histories only) on se
         'distinct = event-log hash, non-trivial = >= 2 tokens and >= 3 allocator calls')
 TIERS = {
     'quick': {'scenarios': 48, 'plans': 60, 'wall_cap': 600},
-    'thorough': {'scenarios': 1200, 'plans': 150, 'wall_cap': 3300},
+    'thorough': {'scenarios': 5000, 'plans': 150, 'wall_cap': 3300},
 }
 COMPONENTS = sb.COMPONENTS
 ASSUMPTIONS = ['MSan is unusable with an uninstrumented libc: reads of uninitialised heap memory are detected only when they change behaviour under a different fill pattern',
